@@ -1676,7 +1676,8 @@ class Entity(Instance):
         return TextBlock(
             [
                 f"entity {self._name} is",
-                IndentBlock(self._port_map()),
+                # an empty port clause is not allowed
+                *([IndentBlock(self._port_map())] if len(self._ports) != 0 else []),
                 f"end {self._name};",
             ]
         )
@@ -1955,9 +1956,15 @@ class EntityInst(Instance):
 
         comp_name = self._scope.lookup_name(self)
 
+        content = [*self._generic_map(), *self._port_map()]
+
+        # the maps end the statement, without them
+        # the terminating semicolon follows the entity name
+        terminator = ";" if len(content) == 0 else ""
+
         return TextBlock(
-            title=f"{comp_name}: entity {path}.{entity_name}{arch_spec}",
-            content=[*self._generic_map(), *self._port_map()],
+            title=f"{comp_name}: entity {path}.{entity_name}{arch_spec}{terminator}",
+            content=content,
         )
 
 
